@@ -248,11 +248,13 @@ impl ParsedFormula {
 
         let formula = SymbolicBDD::parse_formula(&mut tokens.iter().peekable())?;
 
-        let n = vars.len();
+        // raw2free is indexed by variable id; ids are not contiguous when the variable
+        // ordering lists names that the formula does not use
+        let n = vars.last().map_or(0, |v| v.id + 1);
         let mut result = Self {
             vars,
             free_vars: Vec::new(),
-            raw2free: Vec::with_capacity(n),
+            raw2free: vec![None; n],
             bdd: formula,
             env,
             definitions: Default::default(),
@@ -260,15 +262,11 @@ impl ParsedFormula {
 
         let mut vi = 0;
         for v in &result.vars {
-            result.raw2free.push(if result.var_is_free(&result.bdd, v) {
+            if result.var_is_free(&result.bdd, v) {
                 result.free_vars.push(v.clone());
-                let v_result = vi;
+                result.raw2free[v.id] = Some(vi);
                 vi += 1;
-
-                Some(v_result)
-            } else {
-                None
-            });
+            }
         }
 
         Ok(result)
